@@ -180,6 +180,97 @@ def attr_phase(ctx: Ctx, witnesses, collect):
     return n
 
 
+# ----------------------------------------------------------------------------- element declarations
+ER_TYPES = {"string": "xs:string", "AB": "t:AB", "A1": "t:A1", "int": "xs:int"}
+ER_VC = {"none": "", "fixA": ' fixed="A"', "fixB": ' fixed="B"', "defA": ' default="A"', "fix7": ' fixed="7"'}
+
+
+def elem_decl(c):
+    return (f'<xs:sequence><xs:element name="x" type="{ER_TYPES[c["type"]]}"{ER_VC[c["vc"]]}'
+            + (' nillable="true"' if c["nillable"] else "") + "/></xs:sequence>")
+
+
+def elem_restriction_xsd(rec):
+    return (f'<xs:schema xmlns:xs="{cm.XS}" targetNamespace="{cm.TNS}" xmlns:t="{cm.TNS}" '
+            f'elementFormDefault="qualified">'
+            '<xs:simpleType name="AB"><xs:restriction base="xs:string"><xs:enumeration value="A"/>'
+            '<xs:enumeration value="B"/></xs:restriction></xs:simpleType>'
+            '<xs:simpleType name="A1"><xs:restriction base="t:AB"><xs:enumeration value="A"/>'
+            '</xs:restriction></xs:simpleType>'
+            f'<xs:complexType name="B">{elem_decl(rec["b"])}</xs:complexType>'
+            f'<xs:complexType name="D"><xs:complexContent><xs:restriction base="t:B">{elem_decl(rec["d"])}'
+            f'</xs:restriction></xs:complexContent></xs:complexType>'
+            f'<xs:element name="eB" type="t:B"/><xs:element name="eD" type="t:D"/></xs:schema>')
+
+
+def elem_doc(root, inst):
+    nil = ' xsi:nil="true"' if inst["nil"] else ""
+    return (f'<t:{root} xmlns:t="{cm.TNS}" xmlns:xsi="http://www.w3.org/2001/XMLSchema-instance">'
+            f'<t:x{nil}>{inst["text"]}</t:x></t:{root}>')
+
+
+def judge_elem(rec):
+    out = []
+    xsd = elem_restriction_xsd(rec)
+    for ver in ("1.0", "1.1"):
+        schema, err = cm.build(ver, xsd)
+        if schema is None:
+            out.append((ver, "refused", None))
+            continue
+        conf = None
+        if not rec["included"]:
+            # the property, literally, on the implementation: an instance of the spec's counterexample set
+            # that is valid for the derived type and invalid for the base type
+            conf = {"confirmed": None, "checked": 0}
+            for inst in sorted(rec["bad"], key=lambda i: (i["nil"], i["text"])):
+                try:
+                    dv = schema.is_valid(elem_doc("eD", inst))
+                    bv = schema.is_valid(elem_doc("eB", inst))
+                except Exception as e:      # noqa: BLE001
+                    conf["error"] = f"{type(e).__name__}: {e}"[:160]
+                    break
+                conf["checked"] += 1
+                if dv and not bv:
+                    conf["confirmed"] = inst
+                    break
+        out.append((ver, "accepted", conf))
+    return out
+
+
+def elem_phase(ctx: Ctx):
+    cfg = "SPECIFICATION ESpec\nCONSTRAINT EEmit\nCHECK_DEADLOCK FALSE\n"
+    r = ctx.tlc("ElemRestriction", cfg_text=cfg, tag="elem-restriction", workers=1)
+    recs = r.json_records()
+    if len(recs) < 700:
+        raise MachineryError(f"ElemRestriction emitted {len(recs)} pairs")
+    st = collections.Counter()
+    st["pairs"] = len(recs)
+    st["pairs_not_included"] = sum(1 for x in recs if not x["included"])
+    n = 0
+    for rec, res in zip(recs, ctx.pmap(judge_elem, recs)):
+        for ver, outcome, conf in res:
+            n += 1
+            st[f"{ver}_{outcome}_{'included' if rec['included'] else 'not_included'}"] += 1
+            if outcome == "refused" and rec["ok_per_rec"]:
+                st[f"{ver}_refused_although_the_Recommendation_allows_it"] += 1
+            if outcome != "accepted" or rec["included"]:
+                continue
+            if not conf.get("confirmed") and "error" not in conf:
+                st[f"{ver}_accepted_not_included_but_not_demonstrable_on_the_implementation"] += 1
+                continue
+            ctx.report({"scope": "Elem", "ver": ver, "rec": rec, "implementation_on_witness": conf,
+                        "xsd": elem_restriction_xsd(rec)},
+                       f"{ver}: element restriction accepted: base x={rec['b']} -> derived x={rec['d']}, but the "
+                       f"element {conf.get('confirmed') or rec['bad'][:1]} is valid for the derived type only "
+                       f"(implementation: {conf})")
+    ctx.extra.setdefault("per_scope", {})["Elem"] = dict(st)
+    bad = [x for x in recs if not x["included"]]
+    for x in bad[:1] + recs[:1]:
+        ctx.sample({"scope": "Elem", "base": x["b"], "derived": x["d"], "included": x["included"],
+                    "bad_instances": x["bad"][:3]}, 12)
+    return n
+
+
 def load_witnesses():
     if not WITNESS_FILE.exists():
         return {}
@@ -235,6 +326,7 @@ def run(ctx: Ctx, collect=None):
                         "witness_in_derived_not_base": "".join(p["witness"]) if p["witness"] else None}, 9)
     ctx.extra["per_scope"] = per_scope
     total += attr_phase(ctx, witnesses, collect)
+    total += elem_phase(ctx)
     ctx.impl_replays = ctx.evaluations = ctx.nontrivial = total
     ctx.exhaustive = True
     ctx.rule = ("every (base, derived) pair produced by the spec's edit operators (occurrence "
@@ -244,17 +336,30 @@ def run(ctx: Ctx, collect=None):
                 "base family x schema class; a case is one "
                 "strict build of the restriction; only ACCEPTED restrictions are judged; plus every (base, derived) "
                 "pair of attribute uses and attribute wildcards of spec/AttrRestriction.tla (uses of x: 7 x 7, "
-                "of t:y and the wildcards bounded per tier), inclusion decided over the whole attribute-set space")
+                "of t:y and the wildcards bounded per tier), inclusion decided over the whole attribute-set space; plus every "
+                "(base, derived) pair of local element declarations of spec/ElemRestriction.tla (type x value "
+                "constraint x nillable: 28 x 28), inclusion decided over text x xsi:nil")
     ctx.assumptions += [
         "attribute restrictions: a pair the spec calls not included is reported only if the implementation itself "
         "validates one of the spec's counterexample attribute sets for the derived type and not for the base type "
         "(where F-C03-a makes the implementation stricter than the spec the pair is counted as not demonstrable)",
         "inclusion is decided exactly on the product automaton (no word-length bound)",
         "rejected-but-included restrictions (incompleteness) are counted in per_scope, not judged",
-        "content models and attribute uses / wildcards; facet restrictions are not judged here"]
+        "content models, attribute uses / wildcards and element declarations; facet restrictions are not judged here",
+        "element declarations: the empty element that a default / fixed value ADDED by the restriction fills in is "
+        "not judged (the Recommendation itself permits that widening: ElemRestriction.tla LawGap)"]
 
 
 def replay(ctx: Ctx, case):
+    if case.get("scope") in ("Elem", "Attr"):
+        res = judge_elem(case["rec"]) if case["scope"] == "Elem" else judge_attr((case["rec"], 0)) + \
+            judge_attr((case["rec"], 1))
+        for ver, outcome, conf in res:
+            if ver == case["ver"] and outcome == "accepted" and conf and (conf.get("confirmed") or "error" in conf):
+                ctx.report(dict(case, implementation_on_witness=conf),
+                           f"{ver}: restriction accepted but {conf.get('confirmed')} is valid for the derived type only")
+                return
+        return
     b, d = case["base"], case["derived"]
     import itertools
     # decide inclusion for this single pair with an explicit model set
